@@ -180,9 +180,23 @@ def cold_start(queries):
     return json.loads(p.stdout.strip().splitlines()[-1])
 
 
+def weak_hash_events(ctx):
+    """Run in the weak-hash interpreter (harness/weakhash.py): the quick search on every basis of the universe and on its
+    reversal, in one process in which permutations and bases share a few hash values."""
+    rnd = util.rng(ctx, 19)
+    uni, raw = universe(rnd, True)
+    out = []
+    for b in list(uni) + list(raw):
+        for arg, how in ((lambda: [Perm(p) for p in b], "list"), (lambda: [Perm(p) for p in reversed(b)], "list reversed")):
+            st, got = util.call(find_strategies, arg(), False)
+            out.append({"basis": [list(p) for p in b], "how": how, "ok": st == "ok", "report": report_of(got) if st == "ok" else str(got)})
+    return out
+
+
 def run(ctx):
     quick = ctx.tier == "quick"
     rnd = util.rng(ctx, 19)
+    weak = util.weak_hash_start(ctx, "c19", "weak_hash_events") if quick else None
     t0 = time.time()
     phases = {}
     uni, raw = universe(rnd, quick)
@@ -211,8 +225,24 @@ def run(ctx):
     phases["TLC"] = round(time.time() - t0, 1)
     t0 = time.time()
 
-    # ---- the questions, grouped by class, shuffled inside a group -----------------------------------------------
+    # ---- the quick search as answered by an interpreter whose hashes collide (the universe is the same: same seed) ----
     known = ctx.known_entry(SITE, DEV)
+    for doc in (util.weak_hash_finish(ctx, weak, "c19") if weak is not None else []):
+        rec = recs.get(tuple(sorted(map(tuple, doc["basis"]))))
+        if rec is None:
+            continue
+        case = {"kind": "basis", "basis": doc["basis"], "presentation": doc["how"] + ", interpreter with colliding hashes"}
+        ctx.case(("weak", json.dumps(doc["basis"]), doc["how"]), nontrivial=bool(rec["report"]))
+        if not doc["ok"]:
+            if set(rec["undefined"]) and "AssertionError" in doc["report"] and known is not None:
+                ctx.known_finding(known, {"basis": doc["basis"], "presentation": case["presentation"]})
+            else:
+                ctx.violation(case, "NoException", sorted(rec["report"]), doc["report"])
+            continue
+        core_got = {NAME[n] for n in doc["report"] if n in NAME}
+        if core_got != set(rec["report"]):
+            ctx.violation(case, "CoreStrategyHypothesis", sorted(rec["report"]), sorted(core_got))
+    # ---- the questions, grouped by class, shuffled inside a group -----------------------------------------------
     groups = {}
     for b, is_min in entries:
         groups.setdefault(tuple(minimal(b)), []).append((b, is_min))
